@@ -68,6 +68,26 @@ def run(chk: Check) -> None:
     _delegation_table(sub)
     chk.adopt(sub, lambda o: o.construct.startswith("CFG.") and "operator-from-mixin" in o.construct, "R11.3")
 
+    # the truth value of a set is "it has members": collections.abc gives the CFG no __bool__, so
+    # len() decides.  One written by hand has to say the same as len() - the vertices of the
+    # backing graph (which stay behind when their last edge goes) are not members
+    fb = cfgc.methods.get("__bool__")
+    if fb is not None:
+        chk.saw(fb)
+        body_ = [s_ for s_ in fb.node.body if not (isinstance(s_, ast.Expr) and isinstance(s_.value, ast.Constant))]
+        txt_ = unparse(body_[0].value) if len(body_) == 1 and isinstance(body_[0], ast.Return) and body_[0].value is not None else ""
+        me_ = fb.self_name or "self"
+        same = txt_ in ("len(%s) != 0" % me_, "len(%s) > 0" % me_, "bool(len(%s))" % me_, "0 < len(%s)" % me_,
+                        "%s._nxg.number_of_edges() != 0" % me_, "%s._nxg.number_of_edges() > 0" % me_,
+                        "bool(%s._nxg.number_of_edges())" % me_)
+        vertexy = any(isinstance(x, ast.Attribute) and x.attr in ("number_of_nodes", "nodes", "order", "adj", "_adj", "_node")
+                      for x in ast.walk(fb.node)) or "len(%s._nxg)" % me_ in unparse(fb.node) or \
+            "bool(%s._nxg)" % me_ in unparse(fb.node) or txt_ == "%s._nxg" % me_
+        chk.ob("R11.3", "CFG.__bool__:agrees-with-len", same, fb.loc(),
+               "CFG defines __bool__ (%s): it must be true exactly when len() is not 0%s"
+               % (txt_[:50] or "several statements", "; vertices of the backing graph outlive their edges" if vertexy else ""),
+               2, undecided=not same and not vertexy)
+
     # R11.1 -----------------------------------------------------------------
     n_uses = 0
     for f in repo.all_functions():
